@@ -153,6 +153,11 @@ class Val(Atom):
     def __repr__(self):
         return "Val(%s)" % self.v
 
+    def light_constraints(self):
+        """only what the solver needs for residual branch conditions; the character classes are
+        used structurally (barrier rule) and need not burden the string solver"""
+        return [z3.Length(self.v) > 0] if self.nonempty else []
+
     def constraints(self):
         cs = []
         for c in sorted(self.excl):
@@ -164,6 +169,35 @@ class Val(Atom):
         for c in sorted(self.excl_last - self.excl):
             cs.append(z3.Not(z3.SuffixOf(z3.StringVal(c), self.v)))
         return cs
+
+
+class Pct(Atom):
+    """pct(u): the string obtained from the decoded value u (a Val) by replacing every reserved
+    character c by '%XX' (parser.quoter[c]) - justified char by char by the exhaustive lemma
+    C08.quoter.char on the real parser.quoter."""
+    __slots__ = ("u",)
+
+    def __init__(self, u):
+        self.u = u            # a Val
+
+    def __repr__(self):
+        return "Pct(%s)" % self.u.v
+
+
+class SChar(Sym):
+    """an arbitrary character of the symbolic string held by Val v (comprehension over characters)"""
+    __slots__ = ("v",)
+
+    def __init__(self, v):
+        self.v = v
+
+
+class QChar(Sym):
+    """fobj[c] for an arbitrary character c of Val v"""
+    __slots__ = ("fobj", "v")
+
+    def __init__(self, fobj, v):
+        self.fobj, self.v = fobj, v
 
 
 class Rep(Atom):
@@ -319,6 +353,7 @@ class Ctx(object):
         self.pc = []                 # list of z3 Bool
         self.solver = z3.Solver()
         self.solver.set("rlimit", rlimit)
+        self.solver.set("timeout", 4000)      # feasibility checks only: 'unknown' counts as feasible (sound over-approximation)
         self.max_decisions = max_decisions
         self.effects = []            # ordered log of externally visible effects
         self.writes = []             # heap writes (obj, field)
